@@ -250,7 +250,7 @@ func (e *Engine) rootsFor(prop string) (jobs []rootJob, problems []string) {
 			continue
 		}
 		fns := e.functionsWithSites(s)
-		if n := e.siteInstrCount(s); n < s.MinSites || len(fns) == 0 {
+		if n := e.siteInstrCount(s); n < s.MinSites || (len(fns) == 0 && !s.MayBeEmpty) {
 			problems = append(problems, fmt.Sprintf("anchor-missing: site %s matched %d instructions in %d functions (minimum %d)", s.Name, n, len(fns), s.MinSites))
 		}
 		for _, fn := range fns {
